@@ -47,12 +47,13 @@
        the whole segment between them `≥ 2·tol` away from all returned points have `F` of the same
        strict sign.
 
-  NOT proved: the global real-analysis statement from "simple zeros pairwise more than one cell
-  apart, none at a grid point" to "`g'` has constant strict sign on every piece outside the `2·tol`
-  neighbourhoods".  Missing: (a) "a simple zero of a polynomial, alone in its cell, forces opposite
-  signs at the cell ends" (this is the hypothesis `hchg`, assumed, not derived); (b) the
-  constant-sign statement `deriv_same_sign_outside_neighbourhoods` is per cell — gluing the cells
-  (a real point of the hull of the grid lies in some closed cell) is not formalised.
+  NOT proved IN THIS FILE: the global real-analysis statement from "simple zeros pairwise more than
+  one cell apart, none at a grid point" to "`g'` has constant strict sign on every piece outside the
+  `2·tol` neighbourhoods".  The two missing steps are theorems of later files: (a) "a simple zero,
+  alone in its cell, forces opposite signs at the cell ends" (the hypothesis `hchg`) is
+  `C11Simple.hchg_of_simple_zeros`; (b) gluing the cells (a real point of the hull of the grid lies
+  in some closed cell) is `C11Glue.hull_point_in_some_cell` /
+  `deriv_same_sign_outside_neighbourhoods_global`; `C11Final` combines them.
 -/
 import Cav.Lemmas.RootMLoop
 import Cav.Thm.C11Roots
